@@ -181,28 +181,90 @@ Proof.
 Qed.
 Print Assumptions C15_prediction_error_classes.
 
+(* Bridge between prediction_errors and the truth table.  prediction_errors compares
+   match_probability and the clerical score STRICTLY with one threshold t; the table classifies
+   by clerical >= t and adjusted match weight >= the row's threshold.  At a reported row whose
+   threshold separates the pairs exactly as "match_probability > t" does, and when no pair has a
+   NULL label, a clerical score equal to t or a match probability equal to t, the rows returned
+   as FP / FN are exactly as many as that row's FP / FN (the FP half needs only "no NULL label").
+   Label-column mode additionally needs the scored-as-zero option (as the real function assumes:
+   it returns unfound positives as false negatives). *)
+Theorem C15_prediction_errors_match_truth_table :
+  forall column_mode t rnd zero_unfound total_labels rows (probf : lrow -> Q) row,
+    In row (truth_space_table t rnd zero_unfound total_labels rows) ->
+    (column_mode = true -> zero_unfound = true) ->
+    (forall r, In r rows -> Qle_bool (thr row) (adj_score rnd zero_unfound r) = negb (Qle_bool (probf r) t)) ->
+    (forall r, In r rows -> exists c, clerical r = Some c /\ ~ (c == t)%Q) ->
+    (forall r, In r rows -> ~ (probf r == t)%Q) ->
+    let returned := prediction_errors column_mode true true t (map (erow_of probf) rows) in
+    countZ (is_status StFP) returned = FP row /\ countZ (is_status StFN) returned = FN row.
+Proof. exact prediction_errors_match_truth_table. Qed.
+Print Assumptions C15_prediction_errors_match_truth_table.
+
+(* ... and precisely what happens where those hypotheses fail: a pair with a NULL label or a
+   clerical score equal to t is never returned (the table counts it as a clerical negative,
+   resp. positive); a pair whose match probability equals t is returned neither as FP nor as FN
+   by the labels-table function, and by the label-column function only as an unfound positive. *)
+Theorem C15_prediction_errors_ties_and_nulls :
+  forall t e,
+    (e_cms e = None -> isT (false_positive t e) = false /\ isT (false_negative_table t e) = false
+                       /\ isT (false_negative_column t e) = false) /\
+    (forall c, e_cms e = Some c -> (c == t)%Q ->
+       isT (false_positive t e) = false /\ isT (false_negative_table t e) = false /\ isT (false_negative_column t e) = false) /\
+    ((e_prob e == t)%Q ->
+       isT (false_positive t e) = false /\ isT (false_negative_table t e) = false /\
+       (isT (false_negative_column t e) = true <-> exists c, e_cms e = Some c /\ (t < c)%Q /\ e_found e = false)).
+Proof. exact prediction_errors_ties_and_nulls. Qed.
+Print Assumptions C15_prediction_errors_ties_and_nulls.
+
 (* Derived rates: the documented definitions (Model/Accuracy.v rate_defs; the translator
    regenerates the trees from the SQL in /repo and compares by evaluation) in closed form. *)
 Theorem C15_rates_by_definition :
   forall t : trow,
     let q := fun z : Z => inject_Z z in
     let rate := fun name => match lookup_rate name rate_defs with Some e => aeval t e | None => None end in
-    rate "precision"%string = (if Qeq_bool (q (TP t) + q (FP t)) 0 then Some 1%Q
-                               else Some (q (TP t) / (q (TP t) + q (FP t)))%Q) /\
-    rate "recall"%string = (if Qeq_bool (q (P t)) 0 then None else Some (q (TP t) / q (P t))%Q) /\
-    rate "specificity"%string = (if Qeq_bool (q (N t)) 0 then None else Some (q (TN t) / q (N t))%Q) /\
-    rate "npv"%string = (if Qeq_bool (q (TN t) + q (FN t)) 0 then Some 1%Q
-                         else Some (q (TN t) / (q (TN t) + q (FN t)))%Q) /\
-    rate "accuracy"%string = (if Qeq_bool (q (P t) + q (N t)) 0 then None
-                              else Some ((q (TP t) + q (TN t)) / (q (P t) + q (N t)))%Q) /\
-    rate "f1"%string = (if Qeq_bool (inject_Z 2 * q (TP t) + q (FN t) + q (FP t)) 0 then None
-                        else Some (inject_Z 2 * q (TP t) / (inject_Z 2 * q (TP t) + q (FN t) + q (FP t)))%Q) /\
-    rate "tp_rate"%string = rate "recall"%string /\
-    rate "tn_rate"%string = rate "specificity"%string /\
-    rate "fp_rate"%string = (if Qeq_bool (q (N t)) 0 then None else Some (q (FP t) / q (N t))%Q) /\
-    rate "fn_rate"%string = (if Qeq_bool (q (P t)) 0 then None else Some (q (FN t) / q (P t))%Q).
+    let TPq := q (TP t) in let TNq := q (TN t) in let FPq := q (FP t) in let FNq := q (FN t) in
+    let Pq := q (P t) in let Nq := q (N t) in let Tq := q (total t) in
+    let div := fun a b : Q => if Qeq_bool b 0 then None else Some (a / b)%Q in
+    rate "P_rate"%string = div Pq Tq /\
+    rate "N_rate"%string = div Nq Tq /\
+    rate "tp_rate"%string = div TPq Pq /\
+    rate "tn_rate"%string = div TNq Nq /\
+    rate "fp_rate"%string = div FPq Nq /\
+    rate "fn_rate"%string = div FNq Pq /\
+    rate "precision"%string = (if Qeq_bool (TPq + FPq)%Q 0 then Some 1%Q else Some (TPq / (TPq + FPq))%Q) /\
+    rate "recall"%string = div TPq Pq /\
+    rate "specificity"%string = div TNq Nq /\
+    rate "npv"%string = (if Qeq_bool (TNq + FNq)%Q 0 then Some 1%Q else Some (TNq / (TNq + FNq))%Q) /\
+    rate "accuracy"%string = div (TPq + TNq)%Q (Pq + Nq)%Q /\
+    rate "f1"%string = div (inject_Z 2 * TPq)%Q (inject_Z 2 * TPq + FNq + FPq)%Q /\
+    rate "f2"%string = div (inject_Z 5 * TPq)%Q (inject_Z 5 * TPq + inject_Z 4 * FNq + FPq)%Q /\
+    rate "f0_5"%string = div ((5 # 4) * TPq)%Q ((5 # 4) * TPq + (1 # 4) * FNq + FPq)%Q /\
+    rate "p4"%string = div (inject_Z 4 * TPq * TNq)%Q (inject_Z 4 * TPq * TNq + (TPq + TNq) * (FPq + FNq))%Q /\
+    rate "phi"%string =
+      (if Qeq_bool (TNq + FNq)%Q 0 || Qeq_bool (TPq + FPq)%Q 0 || Qeq_bool Pq 0 || Qeq_bool Nq 0 then Some 0%Q
+       else match Qsqrt_exact ((TPq + FPq) * Pq * Nq * (TNq + FNq))%Q with
+            | Some s => div (TPq * TNq - FPq * FNq)%Q s
+            | None => None          (* irrational square root: outside the exact model, compared numerically in X *)
+            end).
 Proof. exact rates_closed_form. Qed.
 Print Assumptions C15_rates_by_definition.
+
+
+(* The translator regenerates one expression tree per derived column from the SQL text in /repo on
+   every run and the obligation evaluated by the kernel is [aexp_eqb tree documented = true] for all
+   16 names; by this theorem the SQL's tree then IS the documented tree, so the closed forms above
+   are statements about what the SQL says, for every row (not only on a grid). *)
+Theorem C15_rate_tree_equality_is_identity :
+  forall sql_tree documented, aexp_eqb sql_tree documented = true -> sql_tree = documented.
+Proof. exact aexp_eqb_eq. Qed.
+Print Assumptions C15_rate_tree_equality_is_identity.
+
+Example C15_all_rates_are_documented :
+  map fst rate_defs = ["P_rate"; "N_rate"; "tp_rate"; "tn_rate"; "fp_rate"; "fn_rate"; "precision"; "recall";
+                       "specificity"; "npv"; "accuracy"; "f1"; "f2"; "f0_5"; "p4"; "phi"]%string
+  /\ forallb (fun ne => aexp_eqb (snd ne) (snd ne)) rate_defs = true.
+Proof. vm_compute. split; reflexivity. Qed.
 
 (* ------------------------------------------------------------------ non-vacuity *)
 Definition ex_rows : list lrow :=
@@ -234,3 +296,26 @@ Example C15_example_errors :
            {| e_key := 4; e_cms := Some 0%Q; e_prob := 1 # 2; e_found := true |} ])
   = [ (0%nat, Some StFN); (1%nat, Some StFP); (2%nat, Some StFN) ].
 Proof. vm_compute. reflexivity. Qed.
+(* label-column mode: dedupe of 5 records (10 admissible pairs), one blocking rule, 4 scored pairs
+   (the last one found only through the label rule), 6 implicit negatives *)
+Example C15_example_column_mode_recount :
+  let preds := [ {| p_score := 3 # 1;    p_label_l := Some 1; p_label_r := Some 1; p_match_key := 0%nat |};
+                 {| p_score := 1 # 2;    p_label_l := Some 1; p_label_r := Some 2; p_match_key := 0%nat |};
+                 {| p_score := (-2) # 1; p_label_l := None;   p_label_r := Some 2; p_match_key := 0%nat |};
+                 {| p_score := 4 # 1;    p_label_l := Some 2; p_label_r := Some 2; p_match_key := 1%nat |} ] in
+  option_map (map (fun t => (thr t, TP t, TN t, FP t, FN t, total t)))
+             (truth_space_table_from_labels_column CDedupe [5] 1 (1 # 2) (rounding None) true preds)
+  = Some [ ((-2) # 1, 1, 6, 2, 1, 10); (1 # 2, 1, 7, 1, 1, 10); (3 # 1, 1, 8, 0, 1, 10) ].
+Proof. vm_compute. reflexivity. Qed.
+(* the bridge's hypotheses are satisfiable: probabilities 9/10, 6/10, 1/10 against t = 1/2, row at weight 0 *)
+Example C15_example_errors_match_table :
+  let rows := [ {| score := 3 # 1;    clerical := Some 1%Q; found := true |};
+                {| score := 1 # 2;    clerical := Some 0%Q; found := true |};
+                {| score := (-3) # 1; clerical := Some 1%Q; found := true |};
+                {| score := (-4) # 1; clerical := Some 0%Q; found := true |} ] in
+  let probf := fun r : lrow => if Qle_bool 0 (score r) then (if Qle_bool 3 (score r) then 9 # 10 else 6 # 10) else 1 # 10 in
+  let tab := truth_space_table (1 # 2) (rounding None) true None rows in
+  let ret := prediction_errors false true true (1 # 2) (map (erow_of probf) rows) in
+  map (fun t => (thr t, FP t, FN t)) tab = [ ((-4) # 1, 2, 0); ((-3) # 1, 1, 0); (1 # 2, 1, 1); (3 # 1, 0, 1) ]
+  /\ (countZ (is_status StFP) ret, countZ (is_status StFN) ret) = (1, 1).
+Proof. vm_compute. split; reflexivity. Qed.
